@@ -8,6 +8,7 @@ import (
 	"fmt"
 	"os"
 	"path/filepath"
+	"reflect"
 	"sort"
 	"strconv"
 	"strings"
@@ -15,17 +16,17 @@ import (
 )
 
 type PropConfig struct {
-	ID        string   `json:"id"`
-	Level     string   `json:"level"`
-	Functions []string `json:"functions"`
-	Lemmas    []string `json:"lemmas"`
-	SMTLemmas []string `json:"smt_lemmas"` // hand-posed solver lemmas under contracts/lemmas (must be unsat)
-	Sweep     []string `json:"sweep"`
+	ID         string   `json:"id"`
+	Level      string   `json:"level"`
+	Functions  []string `json:"functions"`
+	Lemmas     []string `json:"lemmas"`
+	SMTLemmas  []string `json:"smt_lemmas"` // hand-posed solver lemmas under contracts/lemmas (must be unsat)
+	Sweep      []string `json:"sweep"`
 	SweepRoots []string `json:"sweep_roots"`
-	Own       []string `json:"own"`
-	OwnRoots  []string `json:"own_roots"`
-	Safety    bool     `json:"safety"` // safety obligations of Functions count for this property
-	Bounded   []struct {
+	Own        []string `json:"own"`
+	OwnRoots   []string `json:"own_roots"`
+	Safety     bool     `json:"safety"` // safety obligations of Functions count for this property
+	Bounded    []struct {
 		Name     string `json:"name"`
 		Pkg      string `json:"pkg"`
 		Test     string `json:"test"`
@@ -33,10 +34,10 @@ type PropConfig struct {
 		Bound    string `json:"bound"`
 		StandsIn string `json:"stands_in_for"`
 	} `json:"bounded"`
-	Assumptions []string `json:"assumptions"`
-	NotDecided  []string `json:"not_decided"`
-	Explanation string   `json:"explanation"`
-	MinObligations int   `json:"min_obligations"`
+	Assumptions    []string `json:"assumptions"`
+	NotDecided     []string `json:"not_decided"`
+	Explanation    string   `json:"explanation"`
+	MinObligations int      `json:"min_obligations"`
 	// clauses that must exist (vacuity guard): "<function key>#ensures[label]"
 	Clauses []string `json:"clauses"`
 }
@@ -278,6 +279,12 @@ func runCheck(propID, repo, verif, tier string, verbose bool) int {
 	unknownCalls := map[string]int{}
 	inlined := map[string]bool{}
 	haveClause := map[string]bool{}
+	type slowObl struct {
+		Name    string  `json:"obligation"`
+		Seconds float64 `json:"seconds"`
+		Solver  string  `json:"solver"`
+	}
+	var slow []slowObl
 	usedElsewhere := map[string]bool{} // contracts applied here whose function is not verified by this check
 	verifiedHere := map[string]bool{}
 	for _, u := range units {
@@ -326,6 +333,9 @@ func runCheck(propID, repo, verif, tier string, verbose bool) int {
 			haveClause[o.Name] = true
 			solverSeconds += o.Seconds
 			fe.Seconds += o.Seconds
+			if o.Seconds >= 1.0 {
+				slow = append(slow, slowObl{o.Name, round3(o.Seconds), o.Solver})
+			}
 			if o.Kind == "cover.soft" {
 				if o.Result == "unsat" {
 					deadReturns = append(deadReturns, o.Name+" at "+o.Pos)
@@ -438,16 +448,16 @@ func runCheck(propID, repo, verif, tier string, verbose bool) int {
 		os.MkdirAll(replayDir, 0o755)
 		v.Replay = filepath.Join(replayDir, sanitizeFile(v.Obl.Name)+".json")
 		rep := map[string]interface{}{
-			"property":   propID,
-			"obligation": v.Obl.Name,
-			"kind":       v.Obl.Kind,
-			"clause":     v.Obl.Text,
-			"position":   v.Obl.Pos,
-			"reason":     v.Reason,
-			"solver":     v.Obl.Solver,
-			"result":     v.Obl.Result,
-			"smt_file":   v.Obl.File,
-			"solver_output": trunc(v.Obl.Output, 20000),
+			"property":                 propID,
+			"obligation":               v.Obl.Name,
+			"kind":                     v.Obl.Kind,
+			"clause":                   v.Obl.Text,
+			"position":                 v.Obl.Pos,
+			"reason":                   v.Reason,
+			"solver":                   v.Obl.Solver,
+			"result":                   v.Obl.Result,
+			"smt_file":                 v.Obl.File,
+			"solver_output":            trunc(v.Obl.Output, 20000),
 			"model_from_relaxed_query": v.Obl.Relaxed,
 		}
 		if !v.Input && v.Obl.Result == "sat" && v.Unit != nil {
@@ -531,14 +541,15 @@ func runCheck(propID, repo, verif, tier string, verbose bool) int {
 		"undischarged":             undis,
 		"inlined_helpers":          inl,
 		"contracts_relied_on_proved_by_other_checks": shortKeys(usedElsewhere),
-		"bounded_standins":         boundedEv,
-		"discharged_by_backend":    bySolver,
-		"solver_seconds":           round3(solverSeconds),
-		"load_seconds":             round3(loadS),
-		"known_findings_hit":       dedup(knownHit),
-		"explanation":              prop.Explanation,
-		"violating_obligations":    violNames,
-		"returns_unreachable_under_contracts": deadReturns,
+		"slowest_obligations":                        slowTop(slow),
+		"bounded_standins":                           boundedEv,
+		"discharged_by_backend":                      bySolver,
+		"solver_seconds":                             round3(solverSeconds),
+		"load_seconds":                               round3(loadS),
+		"known_findings_hit":                         dedup(knownHit),
+		"explanation":                                prop.Explanation,
+		"violating_obligations":                      violNames,
+		"returns_unreachable_under_contracts":        deadReturns,
 	}
 	if len(closure) > 0 {
 		// coverage of the call closure of the entry points by the safety sweep
@@ -645,5 +656,22 @@ func shortKeys(m map[string]bool) []string {
 		out = append(out, shortKey(k))
 	}
 	sort.Strings(out)
+	return out
+}
+
+// slowTop: the ten slowest obligations of the run (solver seconds, all stages), for the evidence.
+func slowTop(in interface{}) interface{} {
+	v := reflect.ValueOf(in)
+	idx := make([]int, v.Len())
+	for i := range idx {
+		idx[i] = i
+	}
+	sort.Slice(idx, func(a, b int) bool {
+		return v.Index(idx[a]).FieldByName("Seconds").Float() > v.Index(idx[b]).FieldByName("Seconds").Float()
+	})
+	var out []interface{}
+	for i := 0; i < len(idx) && i < 10; i++ {
+		out = append(out, v.Index(idx[i]).Interface())
+	}
 	return out
 }
